@@ -51,6 +51,16 @@ class CoopLock:
         return True
       if not blocking:
         return False
+      if timeout is not None and timeout >= 0:
+        # a bounded wait. Whoever holds the lock may run user code of any duration under it, so
+        # the wait may expire while the lock is still held: the other threads get one chance to
+        # run, and if the lock is still taken then, the wait has timed out.
+        self.sched.yield_now()
+        if self.owner is None:
+          continue
+        if self.reentrant and self.owner == me:
+          continue
+        return False
       self.sched.block_on(me, self)
 
   def release(self):
